@@ -43,6 +43,12 @@ fn nt_c10(_p: &Plan, o: &RunOut) -> bool {
 fn nt_c11(p: &Plan, o: &RunOut) -> bool {
     o.probes.api_calls >= 1 && p.api.iter().any(|a| a.at_us > 500_000) && o.probes.sealed_frames >= 50
 }
+fn nt_c17(p: &Plan, o: &RunOut) -> bool {
+    o.probes.rollbacks >= 1 && (p.nodes.len() >= 3 || p.cfg.num_players >= 3)
+}
+fn nt_c18(_p: &Plan, o: &RunOut) -> bool {
+    o.probes.max_frame >= 600
+}
 fn nt_c12(_p: &Plan, o: &RunOut) -> bool {
     o.probes.events.get("synchronized").copied().unwrap_or(0) >= 1 && (faults_fired(o) >= 1 || o.counters.injected >= 1)
 }
@@ -206,6 +212,30 @@ PropSpec {
     nontrivial: nt_c13,
     required_probes: &["synctest_runs_with_detection", "synctest_invalid_configs_tried", "rollbacks"],
     assumptions: &["the injected fault is a game step whose result differs between simulations of the same frame (fresh counter mixed into the state)", "no network, no clock: the technique degenerates to seeded workload + fault + oracle + replay"],
+    twin: None,
+},
+PropSpec {
+    id: "C17",
+    level: "exploration",
+    quick_runs: 4000,
+    thorough_runs: 100_000,
+    default_seed: 1717,
+    rule: "C01's space (half of the runs with 3-4 peers, a third with desync detection on, rollback and lockstep, spectators); every plan is executed three times in one process with the same API calls, clock readings and per-link packet fates but different hash keys (single key vs a fresh key per map) and different handshake random numbers; request lists, final frames, per-address event sequences with their timestamps and the executed traffic schedule must be identical. Non-trivial = >= 1 rollback and >= 3 nodes or >= 3 players; distinct = distinct executed-schedule hash",
+    nontrivial: nt_c17,
+    required_probes: &["twin_runs", "rollbacks", "spectator_frames"],
+    assumptions: BASE_ASSUME,
+    twin: Some(crate::twins::c17_twin),
+},
+PropSpec {
+    id: "C18",
+    level: "exploration",
+    quick_runs: 1500,
+    thorough_runs: 40_000,
+    default_seed: 1818,
+    rule: "long runs (600-20000 frames) in six equal parts: all-local sessions without any remote; sessions whose events are never drained while unequal tick rates keep WaitRecommendations coming; hosts whose spectator stops polling for good; desync detection with lost ChecksumReports; repeated one-way input/ack outages of up to 0.9 x timeout; plain long runs of C01's space. After every API call the sizes read through the accessor must respect bounds that depend only on the configuration: event queue <= 100, pending local inputs <= local players, nothing queued for sending without remotes, unacknowledged inputs per endpoint <= 128 + window + 8, remembered received inputs <= 2 x max(2 x window, 129) + 4, pending checksums <= 64, checksum history <= 33; a silent spectator must have been disconnected. Non-trivial = >= 600 frames simulated; distinct = distinct executed-schedule hash",
+    nontrivial: nt_c18,
+    required_probes: &["silent_spectators_checked", "wait_recommendation", "drop_window", "input_ring_wraps", "spectator_frames"],
+    assumptions: &["the allocator-slope test of the design was dropped: the harness game's own history grows with the run and cannot be separated from the session's allocations by a per-thread counter", "sizes are read through the verif-hooks accessor"],
     twin: None,
 }];
 
